@@ -357,7 +357,8 @@ fn gen_history(r: &mut Rng, n: usize, len: usize) -> Vec<String> {
                     6 => left.saturating_sub(1),            // lands on the last element
                     7 => left + r.usize_below(2),           // exactly past the end
                     8 => r.usize_below(left + 2),
-                    _ => *r.pick(&[1usize << 20, 1 << 32, u32::MAX as usize, 1 << 62, (1 << 63) - 1]),
+                    _ => *r.pick(&[1usize << 20, 1 << 32, u32::MAX as usize, 1 << 62, (1 << 63) - 1, 1 << 63,
+                        usize::MAX - n, usize::MAX - 1, usize::MAX]),
                 };
                 ops.push(format!("b{k}"));
                 idx = idx.saturating_add(k).min(n);
